@@ -26,7 +26,9 @@ import (
 	"math/rand"
 	"os"
 	"path/filepath"
+	"regexp"
 	"sort"
+	"strconv"
 	"strings"
 	"sync"
 	"time"
@@ -550,7 +552,8 @@ func compare(r *core.Run, p *prepared, res *nodeResult, st *stats) {
 	}
 	entryKind := g.Kinds[0]
 	for _, c := range p.cfgs {
-		key := map[string]interface{}{"graph": g.id, "format": c.Format, "platform": c.Platform, "minify": c.Minify, "pattern": pattern(g)}
+		key := map[string]interface{}{"graph": g.id, "format": c.Format, "platform": c.Platform, "minify": c.Minify, "pattern": pattern(g),
+			"cycle": hasLabel(g, "cycle"), "throws": hasLabel(g, "throw"), "mixed": hasLabel(g, "mixed")}
 		replay := func(what string, o *obs) map[string]interface{} {
 			m := map[string]interface{}{
 				"scenario": g, "labels": g.labels, "naming_scheme": p.scheme, "config": c, "files": p.files,
@@ -639,6 +642,8 @@ func signature(g *graphCase, nat, got [][2]string) string {
 		switch {
 		case strings.HasPrefix(v, "!"):
 			return "error"
+		case strings.HasPrefix(v, "{") && strings.Contains(v, "Error>"):
+			return "object(a getter throws)"
 		case strings.HasPrefix(v, "{"):
 			return "object"
 		case v == "undefined":
@@ -655,6 +660,12 @@ func signature(g *graphCase, nat, got [][2]string) string {
 			t := ""
 			if s.T > 0 {
 				t = "->" + g.Kinds[s.T-1]
+				for _, ts := range g.Bodies[s.T-1] {
+					if ts.Op == "esm" {
+						t += "(__esModule)"
+						break
+					}
+				}
 			}
 			return g.Kinds[m-1] + ":" + s.Op + t
 		}
@@ -675,6 +686,15 @@ func signature(g *graphCase, nat, got [][2]string) string {
 	return "same"
 }
 
+func hasLabel(g *graphCase, l string) bool {
+	for _, x := range g.labels {
+		if x == l {
+			return true
+		}
+	}
+	return false
+}
+
 func filesBrief(files map[string]string) string {
 	var names []string
 	for n := range files {
@@ -688,12 +708,15 @@ func filesBrief(files map[string]string) string {
 	return sb.String()
 }
 
+var reSimStates = regexp.MustCompile(`The number of states generated: (\d+)`)
+
 type genCfg struct {
 	Config   string
 	Simulate string // "" = exhaustive
 	Depth    int
 	Timeout  int
 	Thorough bool // only in the thorough tier
+	Quick    bool // only in the quick tier (subsumed by a thorough config)
 	Quota    int  // quick tier: number of cases taken from this config (0 = all)
 }
 
@@ -724,6 +747,14 @@ func generate(r *core.Run, gc genCfg, seen map[string]bool, mu *sync.Mutex) []*g
 		o.Seed = r.Seed
 	}
 	res := tlcrun.MustHold(r, o)
+	if res != nil && gc.Simulate != "" {
+		// simulation mode reports its state count differently
+		if m := reSimStates.FindStringSubmatch(res.Output); m != nil {
+			n, _ := strconv.ParseInt(m[1], 10, 64)
+			res.Generated, res.Distinct = n, n
+			r.AddStates(n, n)
+		}
+	}
 	if res != nil {
 		r.Set("tlc_"+strings.TrimSuffix(strings.TrimPrefix(gc.Config, "ModuleSem."), ".cfg"),
 			map[string]interface{}{"generated": res.Generated, "distinct": res.Distinct, "depth": res.Depth, "cases": len(cases), "wall_s": res.Wall.Seconds()})
@@ -740,18 +771,35 @@ func Run(r *core.Run) {
 		replayOne(r)
 		return
 	}
+	if os.Getenv("C02_ONLY_DATA") != "" {
+		runDataLoaders(r)
+		r.Set("rule", "data only")
+		return
+	}
+	// generator configs (each is also a design check: the invariants of
+	// ModuleSem are checked on every state).  Quick: two small exhaustive
+	// slices and seeded simulation; thorough: the exhaustive slices in full.
 	gens := []genCfg{
-		{Config: "ModuleSem.esm2.cfg", Timeout: 600, Quota: 500},
+		{Config: "ModuleSem.qesm.cfg", Timeout: 900, Quota: 500, Quick: true},
+		{Config: "ModuleSem.qmixed.cfg", Timeout: 900, Quota: 500, Quick: true},
+		{Config: "ModuleSem.simmixed.cfg", Simulate: fmt.Sprintf("num=%d", r.Pick(300, 3000)), Depth: 300, Timeout: 1500, Quota: 2000},
+		{Config: "ModuleSem.simesm.cfg", Simulate: "num=2500", Depth: 300, Timeout: 1500, Thorough: true, Quota: 1000},
+		{Config: "ModuleSem.esm2.cfg", Timeout: 1500, Thorough: true, Quota: 3000},
+		{Config: "ModuleSem.mixed2.cfg", Timeout: 1500, Thorough: true, Quota: 3500},
+		{Config: "ModuleSem.cyc3.cfg", Timeout: 1500, Thorough: true, Quota: 1500},
+		{Config: "ModuleSem.star3.cfg", Timeout: 1500, Thorough: true, Quota: 1500},
+		{Config: "ModuleSem.cjs3.cfg", Timeout: 1500, Thorough: true, Quota: 1500},
 	}
 	seen := map[string]bool{}
 	var mu sync.Mutex
 	var all []*graphCase
 	for _, gc := range gens {
-		if gc.Thorough && !r.Thorough() {
+		if (gc.Thorough && !r.Thorough()) || (gc.Quick && r.Thorough()) {
 			continue
 		}
 		cases := generate(r, gc, seen, &mu)
-		if !r.Thorough() && gc.Quota > 0 && len(cases) > gc.Quota {
+		r.Inc("graphs_generated_by_tlc", int64(len(cases)))
+		if gc.Quota > 0 && len(cases) > gc.Quota {
 			// a seeded subset, in a stable order
 			sort.Slice(cases, func(i, j int) bool { return cases[i].id < cases[j].id })
 			rnd := rand.New(rand.NewSource(r.Seed*7919 + int64(len(cases))))
@@ -774,9 +822,17 @@ func runGraphs(r *core.Run, all []*graphCase) {
 		rnd := rand.New(rand.NewSource(r.Seed ^ int64(i)*2654435761))
 		p := &prepared{g: g, scheme: rnd.Intn(3), dir: filepath.Join(r.Scratch, "g", g.id)}
 		p.files, p.entry = materialise(g, p.scheme)
-		if r.Thorough() {
-			p.cfgs = cfgs
-		} else {
+		switch {
+		case r.Thorough() && i%12 == 0:
+			p.cfgs = cfgs // all 18 configurations
+		case r.Thorough():
+			// two configurations per format, platform and minify seeded
+			for f := 0; f < 3; f++ {
+				a := rnd.Intn(6)
+				b := (a + 1 + rnd.Intn(5)) % 6
+				p.cfgs = append(p.cfgs, cfgs[f*6+a], cfgs[f*6+b])
+			}
+		default:
 			// one configuration per format, platform and minify seeded
 			for f := 0; f < 3; f++ {
 				p.cfgs = append(p.cfgs, cfgs[f*6+rnd.Intn(6)])
